@@ -289,8 +289,9 @@ fn run_episode(ep: &Value, epno: usize, cache: &mut HashMap<String, Vocab>, tr: 
         for op in script {
             let name = op[0].as_str().unwrap_or("");
             let arg = op[1].as_u64().unwrap_or(0);
-            if s.m(1).is_error() && name != "fresh" {
-                break;
+            // after a failure the remaining calls are still made: a failed engine must keep failing
+            if s.m(1).is_error() && name == "fresh" {
+                continue;
             }
             match name {
                 "mask" => {
